@@ -236,4 +236,18 @@ def oracle(ctx, budget=1, replay=None, hints=None):
         if outer.containsRegion(inner):
             fails.append(dict(what='containsRegion reported true although the inner region sticks out by %g' % eps, case=repr((outer.toDict(), inner.toDict())),
                               expected='False', actual='True', signature='containment'))
+    # degenerate regions are closed sets too: a zero-width / zero-height rectangle contains the points of its segment, a zero-radius circle its centre
+    for _ in range(60 * budget):
+        n += 1
+        x, y, l = float(rng.randint(10, 190)), float(rng.randint(10, 190)), float(rng.randint(1, 50))
+        k = rng.randint(0, 2)
+        if k == 0:
+            g, pts, out = impl.RectangularRegion(id='d', x1=x, y1=y, x2=x, y2=y + l), [(x, y), (x, y + l), (x, y + l / 2)], [(x + 0.5, y + l / 2), (x, y + l + 0.5)]
+        elif k == 1:
+            g, pts, out = impl.RectangularRegion(id='d', x1=x, y1=y, x2=x + l, y2=y), [(x, y), (x + l, y), (x + l / 2, y)], [(x + l / 2, y - 0.5)]
+        else:
+            g, pts, out = impl.CircularRegion(id='d', cx=x, cy=y, r=0.0), [(x, y)], [(x + 0.5, y)]
+        dist['degenerate'] = dist.get('degenerate', 0) + 1
+        if not all(g.containsPoint(a, b) for a, b in pts) or any(g.containsPoint(a, b) for a, b in out):
+            fails.append(dict(what='degenerate region %r: membership is not that of the closed set' % (g.toDict(),), case=repr(g.toDict()), expected='closed set', actual='differs', signature='point'))
     return dict(evaluations=n, failures=fails[:10], samples=[repr(c) for c in cases[:2]], distribution=dist)
